@@ -275,6 +275,30 @@ func runC17(c *Ctx) {
 			seen[name] = true
 			inst.Do(impl.Req{Method: "PUT", Path: "/" + impl.EscapePath(name) + "/obj", Body: bytes.NewReader([]byte("x"))})
 		}
+		// the create-bucket operation itself decides as without the option
+		nExplicit := 0
+		for name := range seen {
+			if nExplicit >= 400 && !c.Thorough() {
+				break
+			}
+			nExplicit++
+			_, spec, err := c.D.Ask("validate " + drv.HexS(name))
+			if err != nil {
+				panic(err)
+			}
+			cr := inst.Do(impl.Req{Method: "PUT", Path: "/" + impl.EscapePath(name)})
+			c.R.Evaluations++
+			got := "ok"
+			if cr.Status != 200 {
+				got = "err " + cr.ErrCode()
+			}
+			// a valid name may exist already (created by the upload above)
+			if (spec == "ok" && got != "ok" && got != "err BucketAlreadyExists") || (spec != "ok" && got != "err InvalidBucketName") {
+				c.mismatch(Mismatch{Kind: "spec", Backend: kind, Finger: "autobucket-create:" + classifyName(name), Case: []string{"WithAutoBucket(true)", fmt.Sprintf("PUT /%s", name)},
+					Impl: got, Spec: map[bool]string{true: "ok (or BucketAlreadyExists)", false: "err InvalidBucketName"}[spec == "ok"]})
+				break
+			}
+		}
 		r := inst.Do(impl.Req{Method: "GET", Path: "/"})
 		for _, n := range listBucketNames(r.Body) {
 			_, spec, err := c.D.Ask("validate " + drv.HexS(n))
